@@ -395,7 +395,7 @@ def _what(fault, tgt):
 
 class Channel(Part):
     name = 'channel'
-    examples = {'quick': 1000, 'thorough': 12000}
+    examples = {'quick': 800, 'thorough': 12000}
     shrink_cap = {'quick': 60, 'thorough': 300}
 
     def __init__(self):
